@@ -301,9 +301,15 @@ template <class T, size_t... S> void mapassign(vf::Draw &d, vf::Ctx &ctx) {
   std::vector<T> orig1 = b1, orig2 = b2;
   Tensor<T, S...> A, B; std::copy(b1.begin(), b1.end(), A.data()); std::copy(b2.begin(), b2.end(), B.data());
   TensorMap<T, S...> ma(b1.data()), mb(b2.data());
-  ma = mb; A = B;                  // element-wise assignment on owning tensors
+  // the source map as an lvalue, as a temporary (what reshape/flatten/squeeze return) and as an xvalue: all three must copy elements
+  int how = (int)d.integer(0, 2);
+  if (how == 0) ma = mb;
+  else if (how == 1) ma = TensorMap<T, S...>(b2.data());
+  else ma = std::move(mb);
+  A = B;                           // element-wise assignment on owning tensors
   ma += (T)cv; A += (T)cv;
-  ctx.nt(n >= 2); ctx.note = "ma = mb; ma += c with two TensorMaps of the same type";
+  ctx.label(how == 0 ? "mapassign:lvalue" : how == 1 ? "mapassign:temporary" : "mapassign:moved");
+  ctx.nt(n >= 2); ctx.note = how == 0 ? "ma = mb; ma += c with two TensorMaps of the same type" : how == 1 ? "ma = TensorMap(ptr) (temporary); ma += c" : "ma = std::move(mb); ma += c";
   for (size_t i = 0; i < n; ++i) {
     if (!(b1[i] == A.data()[i])) { ctx.fail("ma = mb; ma += c (both TensorMap): destination buffer element %zu = %s, owning-tensor model %s (original %s)", i, vfo::show(b1[i]).c_str(), vfo::show(A.data()[i]).c_str(), vfo::show(orig1[i]).c_str()); return; }
     if (!(b2[i] == orig2[i])) { ctx.fail("ma = mb; ma += c (both TensorMap): SOURCE buffer element %zu changed from %s to %s", i, vfo::show(orig2[i]).c_str(), vfo::show(b2[i]).c_str()); return; }
